@@ -233,8 +233,23 @@ fn run_tape(part: &str, tape: &[u8], cx: &mut Cx) -> Res {
     let mut t = Tape::new(tape);
     match part {
         "wire" => {
-            let b = gen_wire(&mut t);
-            check_message(&b, "wire", cx)
+            let mut b = gen_wire(&mut t);
+            check_message(&b, "wire", cx)?;
+            // the same buffer, changed in place (same address, same length), decoded again: a result must depend on the
+            // octets only, not on what was decoded from that memory before
+            if !b.is_empty() && b.len() < 4096 && t.chance(50) {
+                let k = 1 + t.below(3);
+                for _ in 0..k {
+                    let i = t.below(b.len());
+                    b[i] = match t.below(3) {
+                        0 => 0xff,
+                        1 => b[i] ^ (1 << t.below(8)),
+                        _ => t.byte(),
+                    };
+                }
+                check_message(&b, "wire-mutated-in-place", cx)?;
+            }
+            Ok(())
         }
         "noncanon" => {
             let (b, o, v, _d) = encode_noncanon(&mut t);
@@ -246,7 +261,17 @@ fn run_tape(part: &str, tape: &[u8], cx: &mut Cx) -> Res {
             check_message(&b, "noncanon", cx)
         }
         _ => {
-            let k = t.below(7);
+            if t.chance(1) {
+                // a bare AVP list of 64 KiB and more: one generated record, then a stream of small valid AVPs chosen so that
+                // the octets remaining after some header are 65 536 + a few
+                let mut b = Vec::new();
+                gen_record_opt(&mut t, &mut b, false);
+                let total = 65536 + t.below(16) + if t.chance(30) { t.below(70000) } else { 0 };
+                let rest = cheap_avp_stream(&mut t, total);
+                b.extend_from_slice(&rest);
+                return check_avps(&b, "records-64k", cx);
+            }
+            let k = if t.chance(4) { 7 + t.below(90) } else { t.below(7) };
             let mut b = Vec::new();
             for _ in 0..k {
                 gen_record(&mut t, &mut b);
